@@ -403,8 +403,10 @@ func TestC08ClassDef(t *testing.T) {
 	rapid.Check(t, func(t *rapid.T) {
 		c, kind := genClassDef(t, "cd")
 		if classDefState(c) != "ok" && skipSite(siteClassDefCount) {
-			// excluded by construction: drop the last glyph
+			// excluded by construction: drop the last glyph (and explicit
+			// zero entries, which must stay strictly inside the table)
 			delete(c, 0xFFFF)
+			c = normClass(c)
 		}
 		labels, f := checkClassDef(c)
 		if f != nil && !stats.Known(prop, f.key) {
